@@ -2,7 +2,7 @@
    Arguments: cfgflag = VInt 0 (specified algorithm) | VInt 1 (code as found); funcs = VList of VStr (live
    IMPLEMENTED_FUNCTIONS); props = VDict name -> annotated value (encoding of Typed/GValue.gdec). *)
 From Coq Require Import List Bool NArith ZArith.
-From PV Require Import Base.Str Base.Value Typed.GValue Typed.Cast Typed.Collect Typed.PdSpec Typed.TypedDocs Run.RState.
+From PV Require Import Base.Str Base.Value Typed.GValue Typed.Cast Typed.Collect Typed.PdSpec Typed.PdFull Typed.TypedDocs Run.RState.
 Import ListNotations.
 Local Open Scope N_scope.
 
@@ -56,7 +56,7 @@ Definition run13 (st : rstate) (op : N) (arg : value) : option (rstate * value) 
           end
       end
   | VList [VInt flag; funcs; VStr t; VDict d] =>
-      match dec_props d, find_row t with
+      match dec_props d, find_row_full t with
       | Some props, Some r =>
           let c := cfg_of flag funcs in
           match op with
